@@ -1,5 +1,5 @@
 (** C20 - generation cost stays polynomial: the two recursive traversals are linear. *)
-From W2W Require Import Wf C20Spec C20Proof OutSize.
+From W2W Require Import Wf C20Spec C20Proof OutSize GroupSize.
 
 (** every entry point walks its own body and each helper function's body at most once *)
 Theorem C20_stage_walks : forall m, wf_calls m = true ->
@@ -28,6 +28,16 @@ Theorem C20_output_items_linear : forall m src inc o out_,
   gen m src inc o = Ok out_ -> out_items out_ <= module_size m.
 Proof. exact out_items_linear. Qed.
 Print Assumptions C20_output_items_linear.
+
+(** ... and the bind group sections: the groups hold, together, at most one binding per module-scope variable (the
+    keys of the group map are distinct, so they select disjoint parts of the variable list - C11's content theorem),
+    every generated group has one layout field, one layout entry and one bind group entry per binding, and the lists of
+    [BindGroups], [set_bind_groups] and the pipeline layout have one element per group: at most 8 items per variable. *)
+Theorem C20_bind_group_items_linear : forall m src inc o out_,
+  wf_global_types m = true -> gen m src inc o = Ok out_ ->
+  bind_group_items out_ <= 8 * length (globals m) /\ length (o_pl_groups out_) <= length (globals m).
+Proof. exact bind_group_items_linear. Qed.
+Print Assumptions C20_bind_group_items_linear.
 
 (** Non-vacuity and tightness: a chain of 12 value-returning helpers is walked 13 times
     (the un-memoised traversal walked it 2^13 times). *)
